@@ -7,6 +7,7 @@ import (
 	"math/rand/v2"
 	"net"
 	"time"
+	"verif/monlog"
 
 	"github.com/scionproto/scion/pkg/scrypto/cppki"
 	"github.com/scionproto/scion/private/trust"
@@ -343,7 +344,7 @@ var c34DBDevs = []string{"as-no-timestamping", "as-is-ca", "as-ku-certsign-added
 var c34FetchDevs = []string{"as-no-ia", "as-ia-wildcard", "as-ia-noncanonical", "as-ku-none", "as-no-skid"}
 
 func runC34Provider(r *mon.Run, pool *gen.Pool, rng *rand.Rand, i int, tl timeline, st *c34Stats) {
-	ctx := context.Background()
+	ctx := monlog.Alternate() // log level is a configuration dimension
 	dr := pool.Drawer(rng)
 	w := buildWorld(dr, 1, tl, time.Now())
 	d := newTrustDB()
